@@ -45,6 +45,7 @@ fn full_alphabet() -> Vec<Op> {
         Op::Drain(VecState::Empty),
         Op::Drain(VecState::Spare),
         Op::Drain(VecState::Prefilled),
+        Op::Drain(VecState::Tight),
         Op::Next,
         Op::Close(Side::S),
         Op::Close(Side::R),
@@ -179,6 +180,7 @@ pub fn suites(check: &str, thorough: bool) -> (Vec<SeqSuite>, String) {
                         }
                         a.push(Op::DropHandle(side));
                         a.push(Op::DropHandleUnwinding(side));
+                        a.push(Op::CloneFrom(side));
                         a.push(Op::Close(side));
                     }
                     a.push(Op::TrySend);
@@ -202,6 +204,7 @@ pub fn suites(check: &str, thorough: bool) -> (Vec<SeqSuite>, String) {
                         }
                         a.push(Op::DropHandle(side));
                         a.push(Op::DropHandleUnwinding(side));
+                        a.push(Op::CloneFrom(side));
                         a.push(Op::Close(side));
                     }
                     a
@@ -212,8 +215,33 @@ pub fn suites(check: &str, thorough: bool) -> (Vec<SeqSuite>, String) {
                 class: Class::P,
                 ctor: S,
                 observe: true,
+            }, SeqSuite {
+                // the counts while futures and a stream of the channel exist
+                graph: false,
+                name: "c12-futures",
+                alphabet: vec![
+                    Op::FStream(0),
+                    Op::FRecv(1),
+                    Op::FSend(2),
+                    Op::Poll(0, 0),
+                    Op::Poll(1, 0),
+                    Op::Poll(2, 0),
+                    Op::FDrop(0),
+                    Op::FDrop(1),
+                    Op::FDrop(2),
+                    Op::MoveStream(0),
+                    Op::NewHandle(Side::R, Conv::Clone),
+                    Op::NewHandle(Side::S, Conv::Clone),
+                    Op::TryRecv,
+                ],
+                depth: if thorough { 6 } else { 5 },
+                caps: vec![Cap::B(1)],
+                flavours: vec![(A, A)],
+                class: Class::P,
+                ctor: A,
+                observe: true,
             }],
-            "every sequence up to length 5 (thorough 6) of clone / clone_sync|clone_async / to_sync|to_async / drop / close over both sides and both flavours, sender_count and receiver_count (and all other observers) read after every step; ledger of live handles = the reference model".into(),
+            "every sequence up to length 5 (thorough 6) of clone / clone_sync|clone_async / to_sync|to_async / drop / close over both sides and both flavours, sender_count and receiver_count (and all other observers) read after every step; clone_from over a handle of a second channel (whose counts must return to zero); the counts while send / receive futures and a stream of the channel exist, are polled, moved and dropped; ledger of live handles = the reference model".into(),
         ),
         "C16" => (
             vec![
@@ -380,6 +408,8 @@ impl Shape {
         }
         let any_live = self.live.iter().any(|x| *x != 0);
         match o {
+            Op::CloneFrom(Side::S) => self.hs += 1,
+            Op::CloneFrom(Side::R) => self.hr += 1,
             Op::NewHandle(Side::S, c) => {
                 if c == Conv::ToOther {
                     if any_live {
